@@ -17,9 +17,9 @@ Proof. apply mk_alt_ok; [repeat constructor | lra | exact I | intros o H; discri
 
 Lemma formula_leaf_refuted : forall S,
   alt_okp (fun _ => False) (fun _ => True) zero_alt /\ Forall cfn_unit [CfPartial] /\
-  i_e (formula_response 0 (alt_credit zero_alt) (alt_msg zero_alt) (alt_ok zero_alt) [CfPartial])
+  i_e (formula_response false 0 (alt_credit zero_alt) (alt_msg zero_alt) (alt_ok zero_alt) [CfPartial])
     = mkEntry OkPartial ((1 # 2) * 0) [] /\
-  ~ wf_ires S (formula_response 0 (alt_credit zero_alt) (alt_msg zero_alt) (alt_ok zero_alt) [CfPartial]).
+  ~ wf_ires S (formula_response false 0 (alt_credit zero_alt) (alt_msg zero_alt) (alt_ok zero_alt) [CfPartial]).
 Proof.
   intro S. split; [exact zero_alt_valid|]. split; [repeat constructor|]. split; [reflexivity|].
   intros [_ [H | [H _]]]; [discriminate | vm_compute in H; discriminate].
@@ -32,7 +32,7 @@ Definition refuting_cfg : ccfg := mkC false None true.
 Lemma call_refuted :
   exists OR cfg g a x,
     ans_ok (fun _ => False) (fun _ => True) a /\
-    (forall p, lout_ok (fun _ => False) (o_leaf OR p)) /\
+    (forall p, lout_ok (fun _ => False) (o_leaf OR p)) /\ o_recompute OR = false /\
     (forall sched, c_sched cfg = Some sched -> forall q, 0 <= sched q <= 1) /\
     call 3 OR cfg g a x None [] = Ret (ESingle (mkEntry OkPartial ((1 # 2) * 0) [])) /\
     ~ wf_edx (fun _ => False) (ESingle (mkEntry OkPartial ((1 # 2) * 0) [])).
@@ -42,10 +42,26 @@ Proof.
   split.
   { intro p. unfold refuting_oracles, table_oracles. simpl o_leaf. simpl.
     destruct (path_eqb p [0%nat]); simpl; [repeat constructor | exact I]. }
+  split; [reflexivity|].
   split; [intros sched H; discriminate|].
   split; [reflexivity|].
   intros [_ [H | [H _]]]; [discriminate | vm_compute in H; discriminate].
 Qed.
+
+(* the same call under the repaired consolidate_results (ok re-derived from the scaled grade) *)
+Lemma call_repaired_example :
+  call 3 (table_oracles_v true [([0%nat], LCfn [CfPartial])] [] []) refuting_cfg (GItem (KFormula 0) []) (AItem [zero_alt])
+       (IStr []) None [] = Ret (ESingle (mkEntry OkFalse ((1 # 2) * 0) [])).
+Proof. reflexivity. Qed.
+
+(* the full-strength statement holds of the repaired version *)
+Lemma call_wf_repaired : forall (S : okv -> Prop) (OR : oracles),
+  (forall p, lout_ok S (o_leaf OR p)) -> o_recompute OR = true ->
+  forall fuel cfg g a x attempt log r,
+    ans_ok S (fun _ => True) a ->
+    (forall sched, c_sched cfg = Some sched -> forall q, 0 <= sched q <= 1) ->
+    call fuel OR cfg g a x attempt log = Ret r -> wf_edx S r.
+Proof. intros S OR Hl Hr. apply call_wf; [exact Hl | left; exact Hr]. Qed.
 
 (* ------------------------------------------------------------------------------------------------
    examples
